@@ -23,6 +23,9 @@ from . import boundary, detmodel as D, C02
 EX = "pyxel/exposure/exposure.py"
 DS = D.DS
 LEVEL = "other"
+BOUNDED = {
+    r'array\.current': 'histories read / edit / read of one cluster table (symbolic content and size)',
+}      # unit-name / obligation-name patterns -> the family these obligations are proved for
 TRUSTED = ["xarray: expand_dims / assign_coords / merge / map_over_datasets / DataTree.from_dict preserve values and concatenate along 'time' in coordinate order; merging promotes "
            "integer images to float when steps are outer-joined (ASSUMED: this is most of the property, hence level 'other')",
            "debug capture (ModelGroup.run) is an abstract block with frame detector._intermediate (C01)", "3-D (multi-wavelength) photon export is a boundary"]
